@@ -6,8 +6,10 @@
     is random, so a load that depends on it shows several outcomes).
 
     v_corr : every observed outcome is an outcome of the model of the code as it
-             is for some iteration order (= permutation of the environment list;
-             one order suffices when no finding guard fires, by C20_env_order_independent)
+             is for some iteration order (permutation of the environment list and
+             reversal of the model's map iteration sites; two orders suffice when no
+             finding guard fires and the load is in the property's domain, by
+             C20_env_order_independent)
     v_prop : the load is outside the property's domain (two variables for one
              leaf, a variable that is a prefix of another, a type clash), or
              the loader produced exactly the specification's tree
@@ -57,16 +59,9 @@ Fixpoint cfg_equivb (a b : cfg) {struct a} : bool :=
   | _, _ => false
   end.
 
-(** the driver decodes into a struct whose fields are of type `any`; a nil in
-    the merged map leaves the field at its default *)
-Definition fields : list string := ["a"; "b"; "l"; "m"; "n_k"; "x9"]%string.
-
-Definition decode (d m : list (key * cfg)) : list (key * cfg) :=
-  filter (fun kv => match snd kv with Nil => false | _ => true end)
-         (map (fun f => (K f, match get (K f) m with Nil => get (K f) d | v => v end)) fields).
-
-Definition observe (d : list (key * cfg)) (r : res (list (key * cfg))) : outcome :=
-  match r with Panic => OPanic | Ok m => OTree (decode d m) end.
+(** the driver observes the merged tree where the loader hands it to the decoder *)
+Definition observe (r : res (list (key * cfg))) : outcome :=
+  match r with Panic => OPanic | Ok m => OTree m end.
 
 Definition outcome_eqb (a b : outcome) : bool :=
   match a, b with
@@ -87,11 +82,26 @@ Fixpoint perms {A} (l : list A) : list (list A) :=
   | x :: r => flat_map (insert_all x) (perms r)
   end.
 
+Fixpoint bitvecs (n : nat) : list (list bool) :=
+  match n with
+  | O => [[]]
+  | S k => flat_map (fun v => [false :: v; true :: v]) (bitvecs k)
+  end.
+
+(** iteration orders tried: every permutation of the environment (when it is
+    small) combined with reversal of the map iteration sites of the model *)
+Definition orders (c : case) (all_orders : bool) : list (list bool * list (string * string)) :=
+  let n := length (c_env c) in
+  if all_orders && (n <=? 3)
+  then list_prod (bitvecs 4) (perms (c_env c))
+  else if all_orders && (n <=? 5)
+  then list_prod [[]; [true; true; true; true]; [true]; [false; true; true; true]] (perms (c_env c))
+  else [([], c_env c); ([true; true; true; true], rev (c_env c))].
+
 Definition model_outcomes (fix3 fix4 : bool) (c : case) (all_orders : bool) : list outcome :=
-  let run := fun flip env => observe (c_d c) (load (oracle c) fix3 fix4 flip (c_pfx c) (c_d c) (c_f c) env) in
-  if all_orders && (length (c_env c) <=? 5)
-  then map (run false) (perms (c_env c)) ++ map (run true) (perms (c_env c))
-  else [run false (c_env c); run true (rev (c_env c))].
+  map (fun o => observe
+                  (load (sh_bits (fst o)) (oracle c) fix3 fix4 (c_pfx c) (c_d c) (c_f c) (snd o)))
+      (orders c all_orders).
 
 Definition subset_outcomes (obs model : list outcome) : bool :=
   forallb (fun o => existsb (outcome_eqb o) model) obs.
@@ -121,5 +131,5 @@ Definition check (fix3 fix4 : bool) (c : case) : verdict :=
 (* short constructors for the generated case files *)
 Definition cs p t d f e o :=
   {| c_pfx := p; c_types := t; c_d := d; c_f := f; c_env := e; c_obs := o |}.
-Definition kt (s : string) (n : nat) : key := ([s], Some n).
+Definition kt (s : string) (nk val : string) : key := ([s], Some (nk, val)).
 Definition kf (l : list string) : key := (l, None).
